@@ -11,7 +11,7 @@ def run(ctx):
         raise vlib.CheckError("harness build failed:\n" + log[-3000:])
     big = ctx.tier == "thorough"
     args = ["-seed", ctx.seed, "-rt", 60000 if big else 4000, "-tv", 20000 if big else 1500, "-str", 5000 if big else 400,
-            "-e2e", 2500 if big else 150, "-corpus", os.path.join(vlib.ROOT, "corpus", "c17.tsv")]
+            "-e2e", 1500 if big else 150, "-corpus", os.path.join(vlib.ROOT, "corpus", "c17.tsv")]
     res = vlib.run_pipeline(ctx, exe, args, mcheck)
     cross_check_in_coq(ctx, 1500 if big else 250)
     vlib.judge(ctx, res, "Value.v <-> GnmiTypedValueToNativeType / NativeTypeToGnmiTypedValue (v2, v3) / handleLeafValue via BuildTree / "
